@@ -99,7 +99,7 @@ theorem iterLL {into : S → I} {nx : I → Option V × I} {content : I → List
         · simp [Iter.rem, hci] at hc
         · simp only [Iter.rem, hci, List.cons_append, List.cons.injEq] at hc
           obtain ⟨rfl, rfl⟩ := hc
-          simp [Iter.next, hq, Iter.Inv, Iter.rem, h2, h3, hrows, hne]
+          simp [Iter.next, hq, Iter.Inv, Iter.rem, h2, h3, hne]
           exact hrows
       | nil =>
         obtain ⟨h1, _, _⟩ := hLL.nil i hg hci
@@ -167,7 +167,7 @@ theorem U2.iter_init {k0 k1 : Nat} {a : MArr2 V} (h : Shape2 k0 k1 a) :
     U2.Good k1 (MArr2.iter a) ∧ U2.content (MArr2.iter a) = flat2 a := by
   have := Iter.new_inv (into := MArr1.iter) (content := id) (Good := fun _ => True) (fl := id)
     (RowOk := fun r : MArr1 V => r.length = k1) (n := k1) (fun _ hr => ⟨trivial, rfl, hr⟩) a h.2
-  simpa [flat2] using this
+  exact ⟨this.1, this.2.trans (by simp [flat2])⟩
 
 abbrev U3.Good (k1 k2 : Nat) : MArr3.It V → Prop :=
   Iter.Inv (S := MArr2 V) U2.content (U2.Good k2) (Shape2 k1 k2) (k1 * k2)
@@ -183,7 +183,7 @@ theorem U3.LL (k1 k2 : Nat) : ListLike (V := V) MArr3.itNext U3.content (U3.Good
 theorem U3.iter_init {k0 k1 k2 : Nat} {a : MArr3 V} (h : Shape3 k0 k1 k2 a) :
     U3.Good k1 k2 (MArr3.iter a) ∧ U3.content (MArr3.iter a) = flat3 a := by
   have := Iter.new_inv (into := MArr2.iter) (U3.hrow (V := V) k1 k2) a h.2
-  simpa [flat3, flat2] using this
+  exact ⟨this.1, this.2.trans rfl⟩
 
 abbrev L2.Good (d1 : Nat) : MArrD2.It V → Prop :=
   Iter.Inv (S := MArrD1 V) id (fun _ => True) (fun r => Shape1 d1 r.toU) d1
@@ -198,7 +198,7 @@ theorem L2.iter_init {d0 d1 : Nat} {a : MArrD2 V} (h : Shape2 d0 d1 a.toU) :
   have := Iter.new_inv (into := MArrD1.iter) (content := id) (Good := fun _ => True)
     (fl := fun r : MArrD1 V => flat1 r.toU) (RowOk := fun r : MArrD1 V => Shape1 d1 r.toU) (n := d1)
     (fun _ hr => ⟨trivial, rfl, hr⟩) a.inner.inner hr
-  simpa [flat2, flat1, MArrD2.toU, MArrD2.iter] using this
+  exact ⟨this.1, this.2.trans rfl⟩
 
 abbrev L3.Good (d1 d2 : Nat) : MArrD3.It V → Prop :=
   Iter.Inv (S := MArrD2 V) L2.content (L2.Good d2) (fun p => Shape2 d1 d2 p.toU) (d1 * d2)
@@ -215,7 +215,7 @@ theorem L3.iter_init {d0 d1 d2 : Nat} {a : MArrD3 V} (h : Shape3 d0 d1 d2 a.toU)
     L3.Good d1 d2 (MArrD3.iter a) ∧ L3.content (MArrD3.iter a) = flat3 a.toU := by
   have hr : ∀ p ∈ a.inner.inner, Shape2 d1 d2 p.toU := fun p hp => h.2 _ (List.mem_map_of_mem hp)
   have := Iter.new_inv (into := MArrD2.iter) (L3.hrow (V := V) d1 d2) a.inner.inner hr
-  simpa [flat3, flat2, MArrD3.toU, MArrD3.iter, Function.comp_def] using this
+  exact ⟨this.1, this.2.trans (by simp [flat3, flat2, MArrD3.toU, Function.comp_def])⟩
 
 /-! ### labelled operations commute with erasure -/
 
@@ -234,7 +234,7 @@ theorem L3.index_toU (a : MArrD3 V) (i j k : Nat) : a.index i j k = MArr3.index 
 theorem L1.indexMut_toU (a : MArrD1 V) (i : Nat) (v : V) :
     (a.indexMut i v).map MArrD1.toU = MArr1.indexMut a.toU i v := by
   simp only [MArrD1.indexMut, MArr1.indexMut, MArrD1.toU]
-  split <;> rfl
+  by_cases h : i < a.inner.length <;> simp [h, MArrD1.toU]
 
 theorem L2.indexMut_toU (a : MArrD2 V) (i j : Nat) (v : V) :
     (a.indexMut i j v).map MArrD2.toU = MArr2.indexMut a.toU i j v := by
@@ -248,7 +248,10 @@ theorem L2.indexMut_toU (a : MArrD2 V) (i j : Nat) (v : V) :
     rw [← L1.indexMut_toU r j v]
     cases r.indexMut j v with
     | none => rfl
-    | some r' => simp [MArrD1.indexMut, hi, List.map_set]
+    | some r' =>
+      simp only [MArrD1.indexMut, hi, if_true, Option.map_some]
+      show some ((a.inner.inner.set i r').map MArrD1.toU) = _
+      rw [List.map_set]
 
 theorem L3.indexMut_toU (a : MArrD3 V) (i j k : Nat) (v : V) :
     (a.indexMut i j k v).map MArrD3.toU = MArr3.indexMut a.toU i j k v := by
@@ -262,6 +265,9 @@ theorem L3.indexMut_toU (a : MArrD3 V) (i j k : Nat) (v : V) :
     rw [← L2.indexMut_toU r j k v]
     cases r.indexMut j k v with
     | none => rfl
-    | some r' => simp [MArrD1.indexMut, hi, List.map_set]
+    | some r' =>
+      simp only [MArrD1.indexMut, hi, if_true, Option.map_some]
+      show some ((a.inner.inner.set i r').map MArrD2.toU) = _
+      rw [List.map_set]
 
 end SLV.MArr
